@@ -372,6 +372,6 @@ def replay(ctx: Ctx, case):
 def run(ctx: Ctx):
     q = ctx.tier == "quick"
     parts = []
-    parts.append(given_part(ctx, "sched", cases(pools=not q), check_sched, per_shard(ctx, 224 if q else 9000), batch=20))
+    parts.append(given_part(ctx, "sched", cases(pools=not q), check_sched, per_shard(ctx, 200 if q else 9000), batch=20))
     parts.append(given_part(ctx, "cli", cli_cases(), check_cli, per_shard(ctx, 40 if q else 1600), batch=5))
     run_parts(ctx, parts)
